@@ -656,3 +656,61 @@ SPECS["C18"] = Spec(
                          "escape_lemma_len": "0..%d (QueryEscape treats bytes independently)" % (2 if tier == "quick" else 3), "stored_cookie_text": "0..3 bytes over [a-z0-9%+]"},
     rule="every value within the bound x presence x default; menu texts for typed accessors",
 )
+
+
+# --------------------------------------------------------------------------- C16
+def c16_jobs(tier, seed):
+    n = 3 if tier == "quick" else 5
+    jobs = []
+
+    def add(prefix, pathprefix, method="GET", index="", etag=0, hdrs=0, nn=None):
+        jobs.append({"pkg_short": "flamego", "body": "VH_C16_static", "max_paths": 400000,
+                     "params": {"prefix": prefix, "pathprefix": pathprefix, "method": method, "index": index, "etag": etag,
+                                "hdrs": hdrs, "n": nn if nn is not None else n}})
+    add("", "")
+    add("", "", method="HEAD", etag=1)
+    add("", "", method="?", nn=2)
+    add("p", "/p")
+    add("/p", "", nn=n + 1)
+    add("p/", "/p", index="i.htm", hdrs=1)
+    add("/p/q", "/p/q", etag=1)
+    add("/p/q", "/p", nn=n)
+    if tier == "thorough":
+        add("//p//", "/p", etag=1, hdrs=1)
+        add("", "/a/../", nn=4)
+        add("pub", "/pub/../", nn=4)
+    jobs.append({"pkg_short": "flamego", "body": "VH_C16_dir", "params": {"n": 4 if tier == "quick" else 6}, "max_paths": 400000})
+    return jobs
+
+
+SPECS["C16"] = Spec(
+    "C16", ["flamego/c13.go", "flamego/c16.go", "route/parse.go"], c16_jobs,
+    assumptions=[
+        "real Static() closure, parseStaticOptions, generateETag (time formatting stubbed), LoggerInvoker, run, responseWriter; strings.Trim/TrimRight/HasPrefix/HasSuffix, path.Clean/Join from stdlib SSA",
+        "opt.FileSystem is a harness http.FileSystem whose Open answers error / regular file / directory and whose Stat may fail, all symbolic; it records every name opened",
+        "http.ServeContent and http.Redirect are stubs that record their arguments, send the status and (ServeContent) copy the content through Read; Range/conditional requests, content sniffing and net/http's own Location clean-up are not modelled (natively the real functions run; witnesses compare status and byte counts)",
+        "containment lemma: net/http.Dir.Open executed from stdlib SSA (path.Clean, filepath.Localize, filepath.Join) with os.Open/os.Stat intercepted: the path handed to the OS is inside the directory and has no .. element; (i)-(iv) plus the lemma give 'never outside it' provided the middleware reaches the disk only through opt.FileSystem, which is asserted by intercepting os.Open/os.Stat in the Static runs (they are never called there)",
+        "symlinks inside the directory and custom FileSystems that are themselves unsafe are outside the claim; Prefix \"/\" (serves nothing) is not asserted",
+    ],
+    bounds=lambda tier: {"url_path": "concrete lead + 0..%d arbitrary bytes" % (3 if tier == "quick" else 5), "method": "GET, HEAD or any 0..4 bytes",
+                         "prefix_spellings": ["", "p", "/p", "p/", "/p/q"], "dir_lemma_name_len": 4 if tier == "quick" else 6},
+    rule="one job per option set; every path/method/file-system answer within the bound",
+)
+
+
+# --------------------------------------------------------------------------- C17
+def c17_jobs(tier, seed):
+    return [{"pkg_short": "flamego", "body": "VH_C17_render", "params": {"kind": k, "len": 3 if tier == "quick" else 5}, "max_paths": 200000}
+            for k in ("json", "xml", "binary", "text")]
+
+
+SPECS["C17"] = Spec(
+    "C17", ["flamego/c13.go", "flamego/c17.go", "route/parse.go"], c17_jobs,
+    assumptions=[
+        "real Renderer()/render.JSON/XML/Binary/PlainText, inject (MapTo + resolution of the Render parameter by two later handlers), responseWriter; status symbolic in [100,999], charset symbolic, indentation on/off, body bytes symbolic",
+        "REDUCED CLAIM: encoding/json and encoding/xml Encode are stubbed inside the interpreter (they record value and indentation and write a marker); json.NewEncoder/SetIndent and xml.NewEncoder/Indent run from SSA. That the body decodes back is the standard encoders' contract; it is exercised only natively, when witnesses are replayed (Unmarshal of the real output)",
+        "encoder failures (http.Error path) are outside the claim",
+    ],
+    bounds=lambda tier: {"status": "[100,999]", "charset": "0..2 bytes", "body": "0..%d bytes" % (3 if tier == "quick" else 5)},
+    rule="one job per render method; all option combinations",
+)
